@@ -3,8 +3,13 @@
 Tie: histories are run on the real EventListHeap/SimEvent of /repo and on the
 Gallina model EventList.Model (impl_step over the heapq transcription) inside
 coqc; all return values and the final drain must agree.  A model-independent
-oracle (sorted-set reference + drain of a replayed copy after every operation)
+oracle (sorted-set reference + drain of a replayed copy after every operation;
+the six rich comparisons of every pair of events against the key order)
 classifies disagreements and searches for the failing input.
+
+Second tie: the model is regenerated from the source text of the tree under
+test on every run (translator/py2gallina_eventlist.py) and proved equal to the
+hand-written one (coq/EventList/GenAgree.v); see c01lib.EventListTree.
 """
 from __future__ import annotations
 
@@ -15,9 +20,11 @@ from pathlib import Path
 
 sys.path.insert(0, str(Path(__file__).resolve().parent))
 import common as C
+import c01lib as L1
 
 PID = "C01"
-TARGETS = ["Props/C01.vo"]
+# built in coq/ (independent of the source text); Gen_EventList / GenAgree / Props are compiled per tree (c01lib.EventListTree)
+TARGETS = ["EventList/KeyProofs.vo", "EventList/Refine.vo", "EventList/HeapqProofs.vo"]
 OPS = ["add", "remove", "pop", "peek", "contains", "size", "is_empty", "clear"]
 
 
@@ -185,6 +192,67 @@ def run_impl(hist, drain_every_step=False):
     return outs, drain(el), step_drains
 
 
+CMP_OPS = [("<", lambda a, b: a < b), ("<=", lambda a, b: a <= b), (">", lambda a, b: a > b),
+           (">=", lambda a, b: a >= b), ("==", lambda a, b: a == b), ("!=", lambda a, b: a != b)]
+
+
+def run_cmp(hist):
+    """The six rich comparisons of every ordered pair of the history's events on the real SimEvent
+    (events created in pool order, some of a subclass).  One code per pair, i-major: bit k = answer of
+    CMP_OPS[k]; -1 if an operator raised or did not answer a bool."""
+    from pydsol.core.simevent import SimEvent
+    kind, pool = hist["kind"], hist["pool"]
+    tgt = _Target()
+    class _SubEvent(SimEvent):
+        pass
+    sub = hist.get("sub") or [False] * len(pool)
+    evs = [(_SubEvent if sub[i] else SimEvent)(make_time(kind, t4, i), tgt, "m", prio)
+           for i, (t4, prio) in enumerate(pool)]
+    codes = []
+    for a in evs:
+        for b in evs:
+            code = 0
+            for k, (_n, f) in enumerate(CMP_OPS):
+                try:
+                    r = f(a, b)
+                except Exception:  # noqa
+                    code = -1
+                    break
+                if not isinstance(r, bool):
+                    code = -1
+                    break
+                code |= int(r) << k
+            codes.append(code)
+    return codes
+
+
+def oracle_cmp(hist, codes):
+    """The property's own clause: the comparison operators agree with the (time, -priority, creation order)
+    order of the event list.  None, or (signature, description, (i, j))."""
+    m = len(hist["pool"])
+    for i in range(m):
+        for j in range(m):
+            ka, kb = key_of(hist, i), key_of(hist, j)
+            exp = [ka < kb, ka <= kb, ka > kb, ka >= kb, ka == kb, ka != kb]
+            code = codes[i * m + j]
+            for k, (name, _f) in enumerate(CMP_OPS):
+                got = None if code < 0 else bool(code >> k & 1)
+                if got is not exp[k]:
+                    return ("comparison-disagrees-with-list-order",
+                            f"event #{i} {name} event #{j} answers {'an exception / a non-bool' if got is None else got}, "
+                            f"the (time, -priority, creation order) keys {ka[:2] + (i,)} and {kb[:2] + (j,)} say {exp[k]}", (i, j))
+    return None
+
+
+def pack_codes(codes):
+    if any(c < 0 for c in codes):
+        return -1
+    acc = 0
+    for c in codes:
+        acc = acc * 64 + c
+    return acc
+
+
 # ------------------------------------------------------------------ oracle (independent of the Coq model)
 def key_of(hist, i):
     t4, prio = hist["pool"][i]
@@ -279,7 +347,12 @@ def cout(hist, o):
     return None   # raise / bad: not representable -> certain mismatch
 
 
-def emit_cases(path: Path, cases):
+def csev(hist, i):
+    t, np_, ident = key_of(hist, i)
+    return f"(mkSev {C.cz(t)} {C.cz(-np_)} {C.cz(ident)})"
+
+
+def emit_cases(path: Path, cases, cmps=()):
     lines = ["From Coq Require Import ZArith List.", "From PV Require Import EventList.Key EventList.Model.",
              "Import ListNotations.", "Definition cases : list (list el_op * list el_out * list key) := ["]
     items = []
@@ -291,17 +364,42 @@ def emit_cases(path: Path, cases):
     lines.append(";\n".join(items))
     lines.append("].")
     lines.append("Eval vm_compute in (mismatches_from 0 (case_ok (impl_step heapq) heapq) cases).")
+    lines.append("Definition cmp_cases : list (list sev * Z) := [")
+    lines.append(";\n".join(f"({C.clist(csev(h, i) for i in range(len(h['pool'])))}, "
+                            + (f"0x{pk:x}%Z" if pk >= 0 else "(-1)%Z") + ")" for h, pk in cmps))
+    lines.append("].")
+    lines.append("Eval vm_compute in (cmp_mismatches_from 0 cmp_cases).")
     path.write_text("\n".join(lines) + "\n")
 
 
 # ------------------------------------------------------------------ main
+def cmp_hist(h, keep=None):
+    """the history reduced to what a comparison needs (optionally only some of its events, creation order kept)"""
+    idx = sorted(keep) if keep is not None else list(range(len(h["pool"])))
+    sub = h.get("sub") or [False] * len(h["pool"])
+    return {"kind": h["kind"], "pool": [h["pool"][i] for i in idx], "sub": [sub[i] for i in idx], "ops": []}
+
+
+def describe_events(h):
+    sub = h.get("sub") or [False] * len(h["pool"])
+    return [{"event": i, "class": "a subclass of SimEvent" if sub[i] else "SimEvent", "time": repr(make_time(h["kind"], t4, i)),
+             "priority": prio, "created": f"#{i}"} for i, (t4, prio) in enumerate(h["pool"])]
+
+
 def main(tier: str) -> int:
     run = C.Run(PID, tier)
-    proofs_ok = run.check_proofs(TARGETS, extra_tb=[
-        "CPython heapq modelled by a Gallina transcription of Lib/heapq.py (EventList.Model.heapq): heap_contract is PROVED "
-        "for the transcription (EventList/HeapqProofs.v); that CPython's C heapq behaves like the transcription is validated by the correspondence only",
-        "times restricted to dyadic values (exact in binary64) represented as Z*2^-10; NaN times excluded",
-    ])
+    try:
+        tree = L1.EventListTree().prepare()
+    except Exception as exc:  # noqa
+        run.violation("translated-model-not-buildable", f"the model could not be regenerated from the source: {type(exc).__name__}: {exc}",
+                      {"unchecked": "coq/EventList/GenAgree.v"}, found_input=False)
+        return run.finish()
+    started = L1.start_proofs(run, tree, TARGETS)     # Props/C01.v is re-checked while the histories run
+    run.assumptions = ["CPython's heapq (C accelerator) behaves as the Gallina transcription of Lib/heapq.py (validated on every explored history)",
+                       "event times are numbers that are exact multiples of 2^-10 (no NaN)",
+                       "translated model: self.m() resolves statically (no overriding subclass of EventListHeap / SimEvent comparison methods); "
+                       "events on the list are SimEvent instances with unique ids, so the event component of an entry tuple never decides a comparison "
+                       "(translator/py2gallina_eventlist.py)"]
     C.use_repo_sources()
     rng = random.Random(run.seed * 7919 + 1)
     kinds = ["int", "float", "mixed", "dur_s", "dur_min", "dur_mix"]
@@ -320,13 +418,16 @@ def main(tier: str) -> int:
         hists.append(h); n_exh += 1
 
     cases = []
+    cmps = {}              # index of the history -> comparison codes of its events
     nontrivial = set()
     hist_ops = {k: 0 for k in OPS}
-    impl_fail = None
+    impl_fail = None       # (history, (signature, what, where), "history" | "comparison")
+    n_pairs = 0
     for idx, h in enumerate(hists):
         deep = idx < n_corpus + n_random and (tier == "thorough" or idx % 4 == 0)
         try:
             outs, dr, sd = run_impl(h, drain_every_step=deep)
+            codes = run_cmp(h) if idx <= n_corpus + n_random else None      # the exhaustive histories share one pool
         except Exception as exc:  # import error, assertion, ...
             run.violation("harness-cannot-run-implementation",
                           f"running a history on the implementation failed: {type(exc).__name__}: {exc}",
@@ -336,7 +437,13 @@ def main(tier: str) -> int:
             hist_ops[op[0]] += 1
         bad, nontriv = oracle(h, outs, dr, sd)
         if bad and impl_fail is None:
-            impl_fail = (h, bad)
+            impl_fail = (h, bad, "history")
+        if codes is not None:
+            cmps[idx] = codes
+            n_pairs += len(codes)
+            badc = oracle_cmp(h, codes)
+            if badc and impl_fail is None:
+                impl_fail = (h, badc, "comparison")
         if nontriv:
             nontrivial.add(repr((h["kind"], h["pool"], h["ops"])))
         cases.append((h, outs, dr))
@@ -348,11 +455,42 @@ def main(tier: str) -> int:
                        "followed by >= 2 successful pops")
     run.cov["op_histogram"] = hist_ops
     run.cov["exhaustive_small_scope_histories"] = n_exh
+    run.cov["event_pairs_compared_with_six_operators"] = n_pairs
     for h, outs, dr in cases[n_corpus:n_corpus + 2]:
         run.add_sample({"history": h, "impl_outputs": outs, "final_drain": dr})
 
-    if impl_fail:
-        h, (sig, what, _k) = impl_fail
+    proofs_ok = L1.check_proofs(run, tree, TARGETS, started=started, extra_tb=[
+        "CPython heapq modelled by a Gallina transcription of Lib/heapq.py (EventList.Model.heapq): heap_contract is PROVED "
+        "for the transcription (EventList/HeapqProofs.v); that CPython's C heapq behaves like the transcription is validated by the correspondence only",
+        "times restricted to dyadic values (exact in binary64) represented as Z*2^-10; NaN times excluded",
+    ])
+    # ---- the regenerated model no longer equals the proved one: look harder for a concrete failing input
+    tie = tree.broken()
+    if tie and impl_fail is None:
+        rng2 = random.Random(run.seed * 7919 + 101)
+        tried = 0
+        for i in range(n_random):
+            h = gen_history(rng2, kinds[i % len(kinds)])
+            tried += 1
+            try:
+                outs, dr, sd = run_impl(h, drain_every_step=True)
+                codes = run_cmp(h)
+            except Exception:  # noqa
+                continue
+            bad, _ = oracle(h, outs, dr, sd)
+            if bad:
+                impl_fail = (h, bad, "history")
+                break
+            badc = oracle_cmp(h, codes)
+            if badc:
+                impl_fail = (h, badc, "comparison")
+                break
+        run.cov["extra_cases_searched_after_broken_tie"] = tried
+    run.cov["source_translation"]["tie"] = {"status": "broken", **{k: v for k, v in tie.items() if k != "failures"}} if tie \
+        else {"status": "checked"}
+
+    if impl_fail and impl_fail[2] == "history":
+        h, (sig, what, _k), _ = impl_fail
 
         def failing(c):
             try:
@@ -367,27 +505,45 @@ def main(tier: str) -> int:
         run.violation(sig, (b or (sig, what))[1], {"history": small, "impl_outputs": o, "final_drain": d,
                                                    "how": "replay the ops on pydsol.core.eventlist.EventListHeap with SimEvents "
                                                           "(time = pool[i][0]/4 in the given kind, priority = pool[i][1])"})
+    elif impl_fail:
+        h, (sig, what, (i, j)), _ = impl_fail
+        small, bad = cmp_hist(h), (sig, what, (i, j))
+        try:
+            cand = cmp_hist(h, {i, j})
+            b2 = oracle_cmp(cand, run_cmp(cand))
+            if b2:
+                small, bad = cand, b2
+        except Exception:  # noqa
+            pass
+        run.violation(sig, bad[1], {"events": describe_events(small), "pair": list(bad[2]), "case": small,
+                                    "how": "create the events in the given order with pydsol.core.simevent.SimEvent (or a subclass of it "
+                                           "where stated) and evaluate the comparison named in `what`"})
 
     # ---- model vs implementation inside coqc
     d = C.scratch_dir(PID)
     shard = 400
     files = []
+    cmp_owner = []
     for s in range(0, len(cases), shard):
         f = d / f"cases_c01_{s // shard}.v"
-        emit_cases(f, cases[s:s + shard])
+        own = [i for i in range(s, min(s + shard, len(cases))) if i in cmps and i % 4 == 0]   # the oracle saw all of them
+        emit_cases(f, cases[s:s + shard], [(hists[i], pack_codes(cmps[i])) for i in own])
         files.append(f)
+        cmp_owner.append(own)
     results = C.coqc_many(files)
-    mism = []
+    mism, cmism = [], []
     for si, (rc, out) in enumerate(results):
-        lst = C.parse_nat_list(out)
-        if rc != 0 or lst is None:
+        lsts = C.parse_nat_lists(out)
+        if rc != 0 or len(lsts) != 2:
             run.violation("correspondence-not-evaluable",
-                          "coqc could not evaluate the C01 correspondence (EventList.Model.case_ok): " + out[-600:],
+                          "coqc could not evaluate the C01 correspondence (EventList.Model.case_ok / cmp_pack): " + out[-600:],
                           {"file": str(files[si])}, found_input=False)
             return run.finish()
-        mism += [si * shard + i for i in lst]
+        mism += [si * shard + i for i in lsts[0]]
+        cmism += [cmp_owner[si][i] for i in lsts[1]]
     run.cov["traces_validated_against_impl"] = len(cases) - len(mism)
     run.cov["model_impl_mismatches"] = len(mism)
+    run.cov["comparison_tables_validated_against_impl"] = sum(len(o) for o in cmp_owner) - len(cmism)
     if mism and not impl_fail:
         h, outs, dr = cases[mism[0]]
         run.violation("model-impl-disagree",
@@ -395,6 +551,14 @@ def main(tier: str) -> int:
                       "but the sorted-set oracle found no violated clause",
                       {"history": h, "impl_outputs": outs, "final_drain": dr, "relation": "EventList.Model.case_ok"},
                       found_input=False)
+    if cmism and not impl_fail:
+        h = hists[cmism[0]]
+        run.violation("model-impl-disagree-comparisons",
+                      "the six rich comparisons of SimEvent no longer match EventList.Key.sev_lt/le/gt/ge/eq/ne (EventList.Model.cmp_pack), "
+                      "but the key-order oracle found no violated clause",
+                      {"events": describe_events(h), "codes": cmps[cmism[0]], "relation": "EventList.Model.cmp_pack"}, found_input=False)
+    if tie and not impl_fail:
+        L1.report_broken_tie(run, tree, {"model_impl_mismatching_cases": len(mism) + len(cmism)})
     if not proofs_ok and not run.violations:
         run.violation("proof-broken", "a C01 proof obligation no longer checks: " + getattr(run, "proof_log", "")[-800:],
                       {"theorems": run.cov.get("theorems")}, found_input=False)
